@@ -264,6 +264,13 @@ func TestC19(t *testing.T) {
 					hist = append(hist, "GC")
 				}
 			}
+			if len(ids) > 0 && rng.IntN(3) == 0 {
+				// a subscriber resumes from an earlier publication: replaying is reading, too
+				from := ids[rng.IntN(len(ids))]
+				rp.Replay(sse.Subscription{Client: &mon.RecClient{}, LastEventID: sse.ID(from), Topics: []string{"t"}})
+				hist = append(hist, fmt.Sprintf("Replay(from %q)", from))
+				r.Count("replays_between_puts", 1)
+			}
 			got, err := rp.Put(pool[q].Msg, []string{"t"})
 			hist = append(hist, fmt.Sprintf("Put(pool[%d])", q))
 			r.Count("puts", 1)
